@@ -78,6 +78,7 @@ pub fn main(args: &[String]) -> ! {
     let mut rep = Report::default();
     for (ci, rec) in recs.iter().enumerate() {
         rep.evaluations += 1;
+        inflight(rec);
         let sizes: Vec<usize> = rec["sizes"].as_array().unwrap().iter().map(|v| v.as_u64().unwrap() as usize).collect();
         let path = scratch.join(format!("log{ci}"));
         let _ = std::fs::remove_file(&path);
